@@ -416,7 +416,7 @@ func runConcCase(c concCase) (obs concObs) {
 		trace("EVENT %d %s %s %d", i, e.Ev, e.R, e.C)
 		switch e.Ev {
 		case "resp":
-			if !waitFor("hook:"+e.R, 300*time.Millisecond) {
+			if !waitFor("hook:"+e.R, 1500*time.Millisecond) {
 				obs.Desync = fmt.Sprintf("event %d: the responder is not at a leaf hook of %s", i, e.R)
 				break
 			}
@@ -429,7 +429,7 @@ func runConcCase(c concCase) (obs concObs) {
 			if leafIdx[e.R] == len(seqOf[e.R]) {
 				want = 2 // the leaf's transaction and the one that finishes the response
 			}
-			for startT := time.Now(); time.Since(startT) < 300*time.Millisecond; {
+			for startT := time.Now(); time.Since(startT) < 1500*time.Millisecond; {
 				mu.Lock()
 				n := builds - b0
 				mu.Unlock()
@@ -439,11 +439,11 @@ func runConcCase(c concCase) (obs concObs) {
 				time.Sleep(200 * time.Microsecond)
 			}
 			if want == 1 {
-				waitFor("hook:"+e.R, 300*time.Millisecond)
+				waitFor("hook:"+e.R, 1500*time.Millisecond)
 			}
 			letSenderTake()
 		case "deliver":
-			if !waitFor("send", 300*time.Millisecond) {
+			if !waitFor("send", 1500*time.Millisecond) {
 				obs.Desync = fmt.Sprintf("event %d: no message is waiting on the network", i)
 				break
 			}
@@ -453,7 +453,7 @@ func runConcCase(c concCase) (obs concObs) {
 			letSenderTake()
 		case "commit":
 			k := fmt.Sprintf("commit:%d", e.C)
-			if !waitFor(k, 300*time.Millisecond) {
+			if !waitFor(k, 1500*time.Millisecond) {
 				obs.Desync = fmt.Sprintf("event %d: no write of leaf %d is waiting to be committed", i, e.C)
 				break
 			}
